@@ -97,4 +97,15 @@ CHECKS = {
         "note": TLCNOTE + "Float bits <-> float64 trusted to math.Float64bits.",
         "technique": "TLA+ reference WKB reader/writer (TLC exhaustive) + TLC-generated encodings replayed + TLC trace validation of recorded encodings",
     },
+    "C05": {
+        "text": "WKT.tla is a token-level printer and recursive-descent parser for the OGC WKT grammar with the documented re-spellings; "
+                "TLC proves Parse(Respell(Print(g))) = g and rejection of trailing tokens for a family x every token-level re-spelling; "
+                "TLC-enumerated re-spelt texts (keyword case, whitespace kinds, bare MultiPoint members, exponent numerals, trailing "
+                "tokens) are replayed into the real UnmarshalWKT; and the text recorded from the real AsText/AppendWKT (tokenised by an "
+                "independent tokeniser, numbers as the bits they denote) must be accepted by the specification's parser, be canonical, "
+                "and denote exactly the geometry built - also for the zero value of every Go type, and equal to the decode of its WKB.",
+        "note": TLCNOTE + "Number text <-> float64 trusted to strconv.ParseFloat; 'shortest' decimal formatting is not decided, only "
+                "round-trip exactness and absence of exponent form.",
+        "technique": "TLA+ token-level WKT grammar (TLC exhaustive) + TLC-generated re-spellings replayed + TLC trace validation of recorded texts",
+    },
 }
